@@ -42,6 +42,7 @@ partial def loop (h : IO.FS.Stream) (u : U) : IO Unit := do
   | ["iface", s, bs] => IO.println "ok"; loop h (declOp u fun w => { w with g := newNode w.g s.toNat! (if (nums bs).isEmpty then [0] else nums bs) })
   | ["isetbases", s, bs] => IO.println "ok"; loop h (declOp u fun w => { w with g := ZI.Graph.setBases w.g s.toNat! (if (nums bs).isEmpty then [0] else nums bs) })
   | ["class", c, bs] => IO.println "ok"; loop h { u with cw := u.cw.setCls c.toNat! { pyBases := if (nums bs).isEmpty then [0] else nums bs } }
+  | ["class", c, bs, _] => IO.println "ok"; loop h { u with cw := u.cw.setCls c.toNat! { pyBases := if (nums bs).isEmpty then [0] else nums bs } }
   | ["idecl", _, _] => IO.println "ok"; loop h u      -- implementer(I)(instance): declares what the instance's *products* implement; nothing any query here sees
   | ["inst", o, c] => IO.println "ok"; loop h { u with cw := u.cw.setInst o.toNat! { cls := c.toNat! } }
   | ["first", c, xs] => IO.println "ok"; loop h (declOp u fun w => classImplementsFirst F w c.toNat! (nums xs).head!)
